@@ -21,6 +21,8 @@ def sec_to_public_pair(
     """Convert a public key in sec binary format to a public pair."""
     byte_count = (generator.p().bit_length() + 7) >> 3 if generator else (len(sec) - 1)
     x = from_bytes_32(sec[1 : 1 + byte_count])
+    if generator and x >= generator.p():
+        raise EncodingError("x coordinate is not below the field prime")
     sec0 = sec[:1]
     if len(sec) == 1 + byte_count * 2:
         isok = sec0 == b"\4"
@@ -28,6 +30,8 @@ def sec_to_public_pair(
             isok = isok or (sec0 in [b"\6", b"\7"])
         if isok:
             y = from_bytes_32(sec[1 + byte_count : 1 + 2 * byte_count])
+            if generator and y >= generator.p():
+                raise EncodingError("y coordinate is not below the field prime")
             return (x, y)
     elif len(sec) == 1 + byte_count:
         if not strict or (sec0 in (b"\2", b"\3")):
